@@ -111,12 +111,14 @@ def run(c):
         inner = Rule(c["inner"])
         if c["kind"] == "as1":
             order = list(c["order"])
-            ar = cpl.AsynchronousRule(apply_rule=inner, update_order=order, randomize_each_cycle=bool(c["rand"]))
+            kw = dict(num_cells=len(c["hist"][-1])) if c["seed"] % 3 == 1 else {}      # both given: update_order wins
+            ar = cpl.AsynchronousRule(apply_rule=inner, update_order=order, randomize_each_cycle=bool(c["rand"]), **kw)
             ca = np.array(c["hist"], dtype=["int32", "uint8", "int64", "int8"][c["seed"] % 4])
             res = cpl.evolve(ca, timesteps=c["T"], apply_rule=ar, r=c["r"])
         else:
             order = [tuple(x) for x in c["order"]]
-            ar = cpl.AsynchronousRule(apply_rule=inner, update_order=order, randomize_each_cycle=bool(c["rand"]))
+            kw = dict(num_cells=(len(c["hist"][-1]), len(c["hist"][-1][0]))) if c["seed"] % 3 == 1 else {}
+            ar = cpl.AsynchronousRule(apply_rule=inner, update_order=order, randomize_each_cycle=bool(c["rand"]), **kw)
             ca = np.array(c["hist"], dtype=["int32", "uint8", "int64", "int8"][c["seed"] % 4])
             res = cpl.evolve2d(ca, timesteps=c["T"], apply_rule=ar, r=c["r"], neighbourhood=ev2.NB[c["nb"]])
         return res, inner, ar, fs
